@@ -35,6 +35,15 @@ type Stream struct {
 	Labels []string `json:"-"`
 	// Why counts the reasons the model gave for not covering a case.
 	Why map[string]int `json:"unmodelled_reasons,omitempty"`
+	// Dis: the first disagreements by line index with both answers unclipped, for a
+	// property-specific search that tries to confirm a failing input independently.
+	Dis []DisRef `json:"-"`
+}
+
+// DisRef points at one disagreeing protocol line.
+type DisRef struct {
+	Idx         int
+	Model, Impl string
 }
 
 // Violation is a concrete input on which the REAL code breaks the property.
@@ -166,6 +175,9 @@ func (s *Stream) Compare(lines, impl, model []string) {
 		distinct[impl[i]] = true
 		if impl[i] != model[i] {
 			s.Disagreements++
+			if len(s.Dis) < 200 {
+				s.Dis = append(s.Dis, DisRef{i, model[i], impl[i]})
+			}
 			if len(s.First) < maxFirst() {
 				l := lines[i]
 				if i < len(s.Labels) {
